@@ -193,3 +193,20 @@ Proof.
 Qed.
 
 End Caught_up.
+
+(* the premises of the theorems above are satisfiable: an injective SQL-like secondary index, three
+   transactions, bulks of 1 and 2 *)
+Example theorems_premises_sat_here :
+  let mk k v := {| e_key := k; e_md := kvmd_empty; e_val := v; e_voff := 0; e_hval := repeat 0 32 |} in
+  let tx id es := {| t_id := id; t_ts := 0; t_md := txmd_empty; t_entries := es |} in
+  let s := {| sp := [82]; smap := Some (fun k _ => 80 :: drop 1 k);
+              tmap := Some (fun k v => 83 :: (match v with x :: _ => x | [] => 0 end) :: drop 1 k);
+              tp := [83]; inj := true; src := SrcOther |} in
+  let h := [tx 1 [mk [82; 48] [122]]; tx 2 [mk [82; 49] [97]]; tx 3 [mk [82; 49] [98]]] in
+  exists st, wf_history h = true /\ history_ok h = true /\ spec_ok s /\
+             run all_fixed s {| maxk := 1024; maxtx := 1024 |} h [1%nat; 2%nat] istate_init = Ok st /\
+             N.to_nat (tb_ts (is_tb st)) = length h /\ versions s h [83; 98; 49] <> [].
+Proof.
+  cbv zeta. eexists. split; [reflexivity|]. split; [reflexivity|]. split; [intros H; discriminate|].
+  split; [vm_compute; reflexivity|]. split; [reflexivity|]. vm_compute. discriminate.
+Qed.
